@@ -19,7 +19,7 @@ PAYLOADS = [
 ]
 # lexical forms of numbers that Rust's FromStr accepts or rejects differently from Rust's expression syntax
 NUMERIC_FORMS = ["+1", "007", " 5 ", "-0", "+0", "1e3", "0x10", "1_000", "\u0661\u0662", "--1", "+ 1", "2147483647", "+2147483647", "2147483648", "-2147483649", "9999999999", "-9999999999", "18446744073709551616", "1.0", ""]
-NAME_PAYLOADS = ["_", "__", "_._", "-", "a_", MARK + "-9.x", "9" + MARK, MARK + " with space", "_" + MARK, MARK + "é", "-" + MARK + "-", MARK + '"q', MARK + "/*x*/", MARK + ";"]
+NAME_PAYLOADS = ["_", "__", "_._", "-", "a_", "self_", "_self", "Self-", "self.", "-Self", "SELF_", "crate_", "_super", "Super.", "r#type", "type_", "_Type", MARK + "-9.x", "9" + MARK, MARK + " with space", "_" + MARK, MARK + "é", "-" + MARK + "-", MARK + '"q', MARK + "/*x*/", MARK + ";"]
 
 SCHEMA = """<xs:schema xmlns:xs="http://www.w3.org/2001/XMLSchema" xmlns:tns={uri} targetNamespace={uri} elementFormDefault="qualified">
   <xs:simpleType name={stname}>
